@@ -20,6 +20,9 @@ def make_mmd(a, ovo, X):
     elif a["form"] == "callable":
         g = G.MMDGEMINI(ovo=ovo, kernel=gens.callable_affinity(a))
         A = g.compute_affinity(X)
+    elif a["form"] == "foreign":
+        g = G.MMDGEMINI(ovo=ovo, kernel=a["name"], kernel_params=dict(a["params"]) if a["params"] else None)
+        A = Aref.copy()
     else:
         g = G.MMDGEMINI(ovo=ovo, kernel="precomputed")
         A = g.compute_affinity(X, Aref)
@@ -34,6 +37,9 @@ def make_wass(a, ovo, X):
     elif a["form"] == "callable":
         g = G.WassersteinGEMINI(ovo=ovo, metric=gens.callable_affinity(a))
         A = g.compute_affinity(X)
+    elif a["form"] == "foreign":
+        g = G.WassersteinGEMINI(ovo=ovo, metric=a["name"], metric_params=dict(a["params"]) if a["params"] else None)
+        A = Aref.copy()
     else:
         g = G.WassersteinGEMINI(ovo=ovo, metric="precomputed")
         A = g.compute_affinity(X, Aref)
@@ -41,13 +47,15 @@ def make_wass(a, ovo, X):
 
 
 @st.composite
-def gemini_spec(draw, bases=("kl", "tv", "hellinger", "chi2", "mmd", "wasserstein"), kernel_forms=None, metric_forms=None):
+def gemini_spec(draw, bases=("kl", "tv", "hellinger", "chi2", "mmd", "wasserstein"), kernel_forms=None, metric_forms=None,
+                foreign=False):
+    """foreign=True (objective-level checks only) adds matrices unrelated to the kernel / metric named at construction"""
     base = draw(st.sampled_from(list(bases)))
     gs = {"base": base, "ovo": draw(st.booleans())}
     if base == "mmd":
-        gs["a"] = draw(gens.kernel_spec(**({"forms": kernel_forms} if kernel_forms else {})))
+        gs["a"] = draw(gens.kernel_spec(forms=kernel_forms or (("named", "callable", "precomputed", "psd", "indef") + (("foreign",) if foreign else ()))))
     elif base == "wasserstein":
-        gs["a"] = draw(gens.metric_spec(**({"forms": metric_forms} if metric_forms else {})))
+        gs["a"] = draw(gens.metric_spec(forms=metric_forms or (("named", "precomputed", "randdist") + (("foreign",) if foreign else ()))))
     else:
         gs["a"] = None
     return gs
